@@ -165,8 +165,9 @@ func (m *UnboundedFairMailbox) Enqueue(msg *ReceiveContext) error {
 	_ = sq.mailbox.Enqueue(msg)
 	atomic.AddInt64(&m.length, 1)
 
-	if pending := atomic.AddInt64(&sq.pending, 1); pending == 1 {
-		// transition from empty -> non-empty, try to activate sender
+	if pending := atomic.AddInt64(&sq.pending, 1); pending == 1 || !sq.active.Load() {
+		// transition from empty -> non-empty, or the consumer deactivated the
+		// sender while this enqueue was still unpublished: try to activate sender
 		if sq.active.CompareAndSwap(false, true) {
 			m.active.enqueue(sq)
 		}
@@ -191,8 +192,17 @@ func (m *UnboundedFairMailbox) Dequeue() (msg *ReceiveContext) {
 
 	msg = sq.mailbox.Dequeue()
 	if msg == nil {
-		// per‑sender queue was drained concurrently; mark inactive
+		// The sub-queue can look empty although messages are pending: a producer
+		// of this sender has reserved its slot but not linked it yet, which hides
+		// every later enqueue. Deactivating unconditionally wedged the sender for
+		// good (pending never returns to 1, so no later enqueue re-activated it).
+		// Mark inactive, then look again: if the slot got linked meanwhile, take
+		// the sender back; if not, the pending producer re-activates it itself
+		// (see Enqueue).
 		sq.active.Store(false)
+		if !sq.mailbox.IsEmpty() && sq.active.CompareAndSwap(false, true) {
+			m.active.enqueue(sq)
+		}
 		return
 	}
 
